@@ -264,4 +264,19 @@ pub open spec fn placed_ok(input: Seq<(Option<usize>, Region)>, k: int, out: Seq
 }
 
 
+
+// ---------- C03, both directions, for the sequential placement ----------
+/// exactly the field lists the sequential placement accepts (for a type without a vftable pointer of its own):
+/// no declared address lies below the running end, and the declared size, if any, is not exceeded
+pub open spec fn layout_accepts(input: Seq<(Option<usize>, Region)>, target: Option<usize>, reg: &TypeRegistry) -> bool {
+    let lf = layout_fields(input, input.len() as int, (Seq::<Region>::empty(), 0nat), reg);
+    lf is Some && (target is Some ==> (lf->0).1 <= target->0)
+}
+pub proof fn lemma_layout_none_stable(input: Seq<(Option<usize>, Region)>, k: int, n: int, init: (Seq<Region>, nat), reg: &TypeRegistry)
+    requires 0 <= k <= n, layout_fields(input, k, init, reg) is None
+    ensures layout_fields(input, n, init, reg) is None
+    decreases n - k
+{
+    if k < n { lemma_layout_none_stable(input, k, n - 1, init, reg); }
+}
 }
